@@ -32,6 +32,7 @@ fn cfg() -> BroadCfg {
 pub fn decode(bytes: &[u8]) -> Case {
     let mut u = Un::new(bytes);
     let mut names = Names::new();
+    names.mid_names = true;
     let level = gen_broad_level(&mut u, &mut names, &cfg(), 1);
     Case { level }
 }
